@@ -54,6 +54,45 @@ theorem C09_preallocate_harmless (es₁ es₂ : List Ev) (k : Nat) (f : Nat) (hd
     opsOf (Ev.preOps k) = 0 ∧ stmtsOf (Ev.preOps k) = 0 ∧ opsOf (Ev.preSt k) = 0 ∧ stmtsOf (Ev.preSt k) = 0 :=
   preallocate_harmless es₁ es₂ k f hd
 
+/-- `Stack::preallocate_operations(n)` as transcribed from Stack.h (condition `n_allocated_operations_ < n_operations_+n+1`,
+    amount of `grow_operation_stack(n)`): from ANY well-formed state it writes nothing, records nothing, never shrinks the buffer,
+    and afterwards at least `n` operations can be pushed without a further check. -/
+theorem C09_preallocate_operations_room (b : B) (n : Nat) (hw : WF b) :
+    WF (step b (.preOps n)).1 ∧ (step b (.preOps n)).2 = false ∧
+    (step b (.preOps n)).1.nOps = b.nOps ∧ (step b (.preOps n)).1.nSt = b.nSt ∧
+    n ≤ free (step b (.preOps n)).1 ∧ free b ≤ free (step b (.preOps n)).1 := step_preOps b n hw
+
+/-- `Stack::preallocate_statements(n)` (condition `n_statements_+n+1 >= n_allocated_statements_`, amount of
+    `grow_statement_stack(n)`): from ANY well-formed state it writes nothing, records nothing, leaves the operation buffer alone,
+    never shrinks the statement buffer, and afterwards the buffer holds the `n` further statements. -/
+theorem C09_preallocate_statements_room (b : B) (n : Nat) (hw : WF b) :
+    WF (step b (.preSt n)).1 ∧ (step b (.preSt n)).2 = false ∧
+    (step b (.preSt n)).1.nOps = b.nOps ∧ (step b (.preSt n)).1.nSt = b.nSt ∧
+    (step b (.preSt n)).1.allocOps = b.allocOps ∧
+    b.allocSt ≤ (step b (.preSt n)).1.allocSt ∧ b.nSt + n ≤ (step b (.preSt n)).1.allocSt := by
+  obtain ⟨w, nf, h1, h2, _⟩ := step_preSt b n hw
+  obtain ⟨_, h4, _⟩ := hw
+  refine ⟨w, nf, h1, h2, ?_, ?_, ?_⟩ <;> simp only [step, grow] <;> split <;> (try split) <;> (try simp only []) <;> omega
+
+/-- What a history records does not change when `preallocate_*` calls are inserted anywhere in it: from every starting state
+    the stream with the call ends with the same operation and statement counts as the stream without it (the contents are the
+    arguments of the pushes; the check compares the tape dumps and the derivatives of both histories). -/
+theorem C09_preallocate_same_counts (es₁ es₂ : List Ev) (k : Nat) (b : B) :
+    (run b (es₁ ++ Ev.preOps k :: es₂)).1.nOps = (run b (es₁ ++ es₂)).1.nOps ∧
+    (run b (es₁ ++ Ev.preOps k :: es₂)).1.nSt = (run b (es₁ ++ es₂)).1.nSt ∧
+    (run b (es₁ ++ Ev.preSt k :: es₂)).1.nOps = (run b (es₁ ++ es₂)).1.nOps ∧
+    (run b (es₁ ++ Ev.preSt k :: es₂)).1.nSt = (run b (es₁ ++ es₂)).1.nSt := by
+  obtain ⟨a1, a2⟩ := run_counts (es₁ ++ Ev.preOps k :: es₂) b
+  obtain ⟨b1, b2⟩ := run_counts (es₁ ++ Ev.preSt k :: es₂) b
+  obtain ⟨c1, c2⟩ := run_counts (es₁ ++ es₂) b
+  simp only [List.map_append, List.map_cons, List.sum_append, List.sum_cons, opsOf, stmtsOf] at a1 a2 b1 b2 c1 c2
+  omega
+
+/-- the two calls on a full one-entry buffer (the state after `Stack()` with ADEPT_INITIAL_STACK_LENGTH 1): sizes as the C++ gives -/
+example : (step (initial 1) (.preOps 5)).1 = ⟨0, 7, 1, 1⟩ ∧ (step (initial 1) (.preSt 5)).1 = ⟨0, 1, 1, 7⟩ ∧
+    (step ⟨3, 8, 2, 8⟩ (.preOps 4)).1 = ⟨3, 8, 2, 8⟩ ∧ (step ⟨3, 8, 2, 8⟩ (.preOps 5)).1 = ⟨3, 16, 2, 8⟩ ∧
+    (step ⟨3, 8, 2, 8⟩ (.preSt 5)).1 = ⟨3, 8, 2, 16⟩ ∧ (step ⟨3, 8, 2, 8⟩ (.preSt 4)).1 = ⟨3, 8, 2, 8⟩ := by decide
+
 /-! ## Recording sites: for ALL sizes the stream of each site is disciplined.
 The reservation expressions are the regenerated ones, so editing `check_space(…)` in the source re-opens these. -/
 
